@@ -128,7 +128,16 @@ int main(int argc, char** argv) {
             Matrix GA; m.calcG(s, GA); Vector bA0; m.calcConstraintAccelerationErrors(s, zero, bA0);
             Real consRes = 0; int rankA = 0;
             if (mA > 0) { FactorQTZ qtz(GA, 1e-10); rankA = qtz.getRank(); Vector x; qtz.solve(Vector(-bA0), x); consRes = (GA * x + bA0).norm() / (1 + bA0.norm()); }
-            std::printf("CASE %d onman %d nu %d mAll %d mA %d rank %d consistency %.3e workless %d nspecs %d kinds%s\n", k, (int)onman, nu, mAll, mA, rankA, consRes, (int)workless, (int)specs.size(), kinds.c_str());
+            // conditioning of the multiplier solve: singular values of G M^-1 G^T (the matrix realizeLoopForwardDynamics factors with
+            // FactorQTZ at rcond = m*Eps^(3/4)); cond = s_max / (smallest singular value the implementation keeps), dropped = the largest
+            // singular value below its cut relative to s_max (0 if none is strictly between roundoff and the cut)
+            Real cond = 1, dropped = 0, smax = 0;
+            if (mA > 0) { Matrix W; m.calcProjectedMInv(s, W); FactorSVD svd(W); Vector sv; svd.getSingularValues(sv);
+                smax = sv[0]; const Real cut = mA * SqrtEps * std::sqrt(SqrtEps) * smax; Real smin = smax;
+                for (int i = 0; i < sv.size(); ++i) { if (sv[i] >= cut) smin = std::min(smin, sv[i]); else dropped = std::max(dropped, sv[i] / smax); }
+                cond = smax / smin;
+                std::printf("SV"); for (int i = 0; i < sv.size(); ++i) std::printf(" %.3e", sv[i]); std::printf("\n"); }
+            std::printf("CASE %d onman %d nu %d mAll %d mA %d rank %d consistency %.3e workless %d nspecs %d cond %.3e dropped %.3e kinds%s\n", k, (int)onman, nu, mAll, mA, rankA, consRes, (int)workless, (int)specs.size(), cond, dropped, kinds.c_str());
             for (int i = 0; i < nu; ++i) { std::printf("MROW %d", i); for (int j = 0; j < nu; ++j) std::printf(" %a", M(i, j)); std::printf("\n"); }
             for (int i = 0; i < mAll; ++i) { std::printf("GROW %d %d", i, maskRow[i]); for (int j = 0; j < nu; ++j) std::printf(" %a", Gall(i, j)); std::printf("\n"); }
             pvec("RHS", Vector(-res0)); pvec("B", Vector(-ball0)); pvec("UDOT", s.getUDot()); pvec("LAMFULL", lamFull); pvec("U", s.getU());
